@@ -7,6 +7,7 @@ import (
 	"math/rand"
 	"path/filepath"
 	"sync"
+	"sync/atomic"
 	"time"
 
 	tally "github.com/uber-go/tally/v4"
@@ -40,6 +41,10 @@ func init() {
 			startAll := make(chan struct{})
 			const hammer = 3000
 			nrec := 2 + rng.Intn(3)
+			// first use of fresh counter names by all recorders at the same moment (a spin barrier per name): every
+			// goroutine increments through the handle it got
+			const nfresh = 40
+			arrive := make([]atomic.Int32, nfresh)
 			for g := 0; g < nrec; g++ {
 				g := g
 				scope := ts
@@ -63,6 +68,15 @@ func init() {
 						sharedTimer.Record(time.Duration(1))
 					}
 					log(M{"e": "ret", "m": "tshared", "n": hammer})
+					for j := 0; j < nfresh; j++ {
+						name := fmt.Sprintf("f%d", j)
+						arrive[j].Add(1)
+						for int(arrive[j].Load()) < nrec {
+						}
+						log(M{"e": "call", "m": name, "n": 1})
+						ts.Counter(name).Inc(1)
+						log(M{"e": "ret", "m": name, "n": 1})
+					}
 					for i := 0; i < nops; i++ {
 						switch i % 5 {
 						case 0:
